@@ -6,12 +6,14 @@ import (
 	"sync"
 
 	"github.com/deepteams/webp/internal/bitio"
+	"github.com/deepteams/webp/internal/verifhook"
 )
 
 var boolWriterPool sync.Pool
 
 func getBoolWriter(expectedSize int) *bitio.BoolWriter {
 	if v := boolWriterPool.Get(); v != nil {
+		verifhook.Pool("lossy.boolWriterPool", true)
 		bw := v.(*bitio.BoolWriter)
 		bw.Reset(expectedSize)
 		return bw
